@@ -60,6 +60,36 @@ CHECKS = {
         note="Trusted: shipped XSDs and presetShapeDefinitions.xml (which itself lacks <upArrow> and defines <upDownArrow> twice: recorded as a known finding), libxml2, the attribute-declaration index shared with C11.",
         design="§3 C20",
     ),
+    "C13": dict(
+        technique="runtime monitoring: add_slide / notes_slide executions on every corpus layout and on generated placeholder populations; expected values computed by the harness's own XPath over layout/master XML; independent reader on the saved package",
+        text="Every layout of every corpus deck (178) + 200 (quick) / 10 000 (thorough) generated placeholder populations (14 types, duplicate/missing idx, vert, sz, with/without xfrm, non-sp placeholders, colliding names) + repeated additions interleaved with edits: ordered placeholder list vs layout minus latent types, unique names/ids, inherited geometry from layout or master by the documented type mapping, last position, slideLayout relationship in the saved file, other slides byte-identical, notes-slide mirroring with and without a notes master.",
+        note="Trusted: harness XPath over live XML, vlib/opcx.py, libxml2 (generated populations are validated first; rejected ones are counted). Known finding: partial geometry override zeroes the sibling coordinate.",
+        design="§3 C13",
+    ),
+    "C14": dict(
+        technique="runtime monitoring: bounded-exhaustive and seeded merge/split/text/resize histories on real tables against a rectangle-set reference model; flags and counts read by the harness's own XPath after every operation",
+        text="All merge/split sequences to depth 2 on every table shape <= 3x3 with every corner-pair orientation (quick; thorough: depth 3, shapes to 4x4 ~3.4e6 sequences) + 300 / 20 000 random 30-op sequences on tables up to 12x12 with text and resizes + all add_table (rows, cols) <= 8x8 x remainders + insert_table + cross-table merges + save/re-open spot checks.",
+        note="Trusted: the ~60-line model written from the statement and docs/user/table.rst; XPath readings of gridSpan/rowSpan/hMerge/vMerge.",
+        design="§3 C14",
+    ),
+    "C15": dict(
+        technique="runtime monitoring: seeded histories of image additions through every entry point with saves and re-opens; offline checker over each saved package (independent reader + own magic-byte sniffing and DPI header parsers)",
+        text="150 (quick) / 6 000 (thorough) histories: PNG/JPEG/GIF/BMP/TIFF recipes (1-64 px, DPI absent/integral/fractional/0/huge/non-square, lying or missing extensions) added by path and stream via add_picture, group add_picture, picture placeholders, movie poster frames and OLE icons, repeated across slides and re-opens (media renumbered with gaps before re-open): one part per distinct bytes, byte-exact, extension/content type of the actual format, default size at the true DPI within 1 EMU, aspect ratio with one dimension given.",
+        note="Trusted: the harness's own header parsers for DPI (PNG pHYs, JFIF, BMP, TIFF tags) and vlib/opcx.py; Pillow only as producer of inputs.",
+        design="§3 C15",
+    ),
+    "C17": dict(
+        technique="runtime monitoring: exhaustive connector creations/moves over a coordinate grid against a 4-tuple model, seeded nested group builds and freeform pens; geometry read from a:off/a:ext/flip, chOff/chExt and path points by the harness's own XML reads after every step",
+        text="Connector: all creations over {-2,0,1,3}^4 x all sequences of <= 2 (quick) / 3 (thorough, ~1e6) single-coordinate moves at two scales + random 50-move sequences at EMU magnitudes; groups: nested builds to depth 4 with every addable member kind, every ancestor checked after every addition; freeforms: random pens (negative/fractional/repeated vertices, several contours, non-uniform scales), bounds from the documented formula +-1 EMU and every point inside its path.",
+        note="Trusted: reference models in props/c17.py written from the docstrings; plain find()/get() on the live tree. The instant after adding an empty subgroup is not checked. Known finding: a rejected endpoint assignment leaves the connector modified.",
+        design="§3 C17",
+    ),
+    "C18": dict(
+        technique="runtime monitoring: seeded assignment/save/re-open histories over the 15 core properties with a dict-of-last-values model; docProps/core.xml read from each saved zip and validated by libxml2 against the OPC core-properties schema; hand-built W3CDTF documents read through the real getters",
+        text="800 (quick) / 32 000 (thorough) histories over strings of length 0..256, datetimes across years 1..9999, revision values, on decks with and without a core-properties part; ~3 000 / 1.2e5 saves each validated (schema + xsi:type rule + element-by-element comparison with an independent reading); every W3CDTF granularity x offsets -14:00..+14:00 read back as UTC; default part creation; corpus core parts read through all getters.",
+        note="Trusted: opc-coreProperties.xsd with local Dublin Core stub schemas (/verif/schemas), libxml2, an independent W3CDTF parser in props/c18.py.",
+        design="§3 C18",
+    ),
     "C19": dict(
         technique="runtime monitoring: bounded-exhaustive differential oracle (OPC/RFC 3986 reference model + urljoin) over PackURI executions",
         text="Every part name over a 6x7 segment alphabet to directory depth 2 (quick) / 3 (thorough) and all ordered pairs (9e4 / 3.4e6 executions of the real relative_ref/from_rel_ref), every accessor, dotted and root-absolute references, compared with an independent reference model and urljoin. Exhaustive within the stated alphabet; says nothing about names outside it.",
